@@ -47,6 +47,9 @@ type OneshotFault struct {
 	Signal int    `json:"signal,omitempty"`
 	// AtByte: bytes of real output to let through first (-1 = all).
 	AtByte int `json:"at_byte"`
+	// DelayMS: with Status and Signal both 0, only slow the command down
+	// (real milliseconds, engine B); Nth < 0 applies to every occurrence.
+	DelayMS int `json:"delay_ms,omitempty"`
 }
 
 type Plan struct {
